@@ -129,3 +129,18 @@ Lemma tie_idl_struct : f_sig_idl_struct_text = "func (s *StructType) SignatureID
 Proof. reflexivity. Qed.
 Lemma tie_tuple_member_names : f_sig_NewTupleType_lits = ["P%d"].
 Proof. reflexivity. Qed.
+
+(* Type() of maps and structs: the pinned text (reflect.MapOf / reflect.StructOf on whatever the
+   members give: the panics of go_type_result with c_key_panic / c_dup_panic) or the repaired one
+   (design/C09.fix.type_panics_*.diff: placeholder for an uncomparable key; clashing member names
+   renamed N_0, N_1, ...) *)
+Lemma tie_MapType_Type : f_sig_MapType_Type_text =
+  "func (m *MapType) Type() reflect.Type { return reflect.MapOf(m.key.Type(), m.value.Type()) }"%string \/
+  f_sig_MapType_Type_text =
+  "func (m *MapType) Type() reflect.Type { key := m.key.Type() if !key.Comparable() { return reflect.TypeOf((*error)(nil)) } return reflect.MapOf(key, m.value.Type()) }"%string.
+Proof. (left; reflexivity) || (right; reflexivity). Qed.
+Lemma tie_StructType_Type : f_sig_StructType_Type_text =
+  "func (s *StructType) Type() reflect.Type { fields := make([]reflect.StructField, len(s.Members)) var offset uintptr = 0 for i, m := range s.Members { typ := m.Type.Type() fields[i] = reflect.StructField{ Name: CleanName(m.Name), PkgPath: typ.PkgPath(), Type: typ, Index: []int{i}, Offset: offset, Anonymous: false, } offset += typ.Size() } return reflect.StructOf(fields) }"%string \/
+  f_sig_StructType_Type_text =
+  "func (s *StructType) Type() reflect.Type { fields := make([]reflect.StructField, len(s.Members)) var offset uintptr = 0 names := make(map[string]bool) for i, m := range s.Members { typ := m.Type.Type() name := CleanName(m.Name) for j := 0; names[name]; j++ { name = fmt.Sprintf("""", CleanName(m.Name), j) } names[name] = true fields[i] = reflect.StructField{ Name: name, PkgPath: typ.PkgPath(), Type: typ, Index: []int{i}, Offset: offset, Anonymous: false, } offset += typ.Size() } return reflect.StructOf(fields) }"%string.
+Proof. (left; reflexivity) || (right; reflexivity). Qed.
